@@ -38,7 +38,7 @@ META = {
     "design_ref": "DESIGN.md §3 C05",
     "engines": ["crash", "refmodel", "storage_exec", "histgen"],
 }
-REQUIRED = ("crash_points_executed", "crash_points_reached", "inflight_applied", "inflight_absent", "continuation_writes_verified", "crashes_holding_the_lock", "short_writes",
+REQUIRED = ("short_writes_at_a_4096_block_boundary", "crash_points_executed", "crash_points_reached", "inflight_applied", "inflight_absent", "continuation_writes_verified", "crashes_holding_the_lock", "short_writes",
             "kills_at_pwrite64")
 SHARDS = {"quick": 14, "thorough": 16}
 WATCHDOG_S = {"quick": 1500, "thorough": 6 * 3600}
@@ -74,13 +74,15 @@ def make_script(rng, model: RefStorage, n_ops: int) -> tuple[list, list, list]:
                    dt_complete="2024-01-02T03:04:59.999999" if st == "COMPLETE" else None)
         tpl["params"], tpl["dists"] = {"x": 0.25, "k": 3}, {"x": gen.pool["x"][0], "k": gen.pool["k"][0]}
         tpl["inter"] = {0: 0.5, 2: float("inf")}
+        if st == "COMPLETE":
+            tpl["user_attrs"]["big"] = "x" * rng.choice([4200, 5000, 9000, 13000])  # every script has a record spanning several 4096-byte blocks
         forced.append(("create_new_trial", "s0", tpl))
     forced.append(("set_trial_state_values", "t1", "COMPLETE", [2.5]))
     while len(ops) < n_ops:
         op = forced.pop(0) if forced and (len(ops) in (1, 3, 5)) else gen.next_op(m)
         if op[0] not in MUTATORS or op[0] == "delete_study":
             continue
-        if op[0] == "create_new_trial" and op[2] is not None and rng.random() < 0.5:
+        if op[0] == "create_new_trial" and op[2] is not None and "big" not in op[2]["user_attrs"] and rng.random() < 0.5:
             op[2]["user_attrs"]["big"] = "x" * rng.choice([10, 600, 5000])  # records larger than one buffer
         e = m.apply(op)
         if e[0] != "ok":
@@ -326,6 +328,9 @@ def plan_points(ctx: Ctx, rng, steps: list) -> list[tuple]:
             cuts = {1, 2, size // 2, size - 2, size - 1} | {rng.randint(1, size - 1) for _ in range(ctx.pick(2, 5))}
             if ctx.thorough() and size <= 400:
                 cuts = set(range(1, size))
+            # structural offsets: around every 4096-byte block / 8192-byte buffer boundary (the recovery code scans the tail in blocks)
+            for blk in range(4096, size + 2, 4096):
+                cuts |= {blk - 1, blk, blk + 1}
             pts += [(k, "cut", c) for c in sorted(c for c in cuts if 0 < c < size)]
     return pts
 
@@ -354,6 +359,8 @@ def run(ctx: Ctx) -> None:
             names = {k: nm for k, nm, _ in dry["steps"]}
             work += [(kind, si, ops, exps, ids, pt, names) for pt in pts]
     ctx.extra["crash_points_planned_total"] = len(work)
+    # block-boundary cuts first: they are few and must not fall to the time budget
+    work.sort(key=lambda wk: 0 if (wk[5][1] == "cut" and wk[5][2] is not None and wk[5][2] >= 4095 and (wk[5][2] + 1) % 4096 <= 2) else 1)
     for wi, (kind, si, ops, exps, ids, (k, phase, cut), names) in enumerate(work):
         if not ctx.mine(wi):
             continue
@@ -375,6 +382,8 @@ def run(ctx: Ctx) -> None:
                 continue
             if phase == "cut":
                 ctx.count("short_writes")
+                if cut >= 4095 and (cut + 1) % 4096 <= 2:
+                    ctx.count("short_writes_at_a_4096_block_boundary")
             lock_held = kind.startswith("journal") and os.path.lexists(sc.path + ".lock")
             if lock_held:
                 ctx.count("crashes_holding_the_lock")
